@@ -334,3 +334,105 @@ func parseVal(tok string) uint64 {
 	}
 	return 0
 }
+
+// OneShot decides asserts in a fresh solver process (non-incremental mode lets z3 use its
+// bit-blasting tactic, which is far stronger on arithmetic-heavy queries than the incremental core).
+func OneShot(kind string, tt *TermTable, asserts []*Term, want []*Term, timeoutMs int) (Result, []uint64, string) {
+	var sb strings.Builder
+	s := &Solver{tt: tt, ufDecl: map[string]bool{}}
+	if kind == "cvc5" {
+		sb.WriteString("(set-logic ALL)\n(set-option :produce-models true)\n")
+	}
+	for _, a := range asserts {
+		s.define(a, &sb)
+	}
+	for _, a := range want {
+		s.define(a, &sb)
+	}
+	for _, a := range asserts {
+		sb.WriteString("(assert " + ref(a) + ")\n")
+	}
+	sb.WriteString("(check-sat)\n")
+	if len(want) > 0 {
+		sb.WriteString("(get-value (")
+		for _, w := range want {
+			sb.WriteString(ref(w) + " ")
+		}
+		sb.WriteString("))\n")
+	}
+	var cmd *exec.Cmd
+	sec := strconv.Itoa((timeoutMs + 999) / 1000)
+	switch kind {
+	case "z3-new":
+		cmd = exec.Command("z3-new", "-in", "-T:"+sec)
+	case "z3":
+		cmd = exec.Command("/usr/bin/z3", "-in", "-T:"+sec)
+	case "cvc5":
+		cmd = exec.Command("cvc5", "--lang", "smt2", "--tlimit="+strconv.Itoa(timeoutMs))
+	default:
+		return Unknown, nil, "unknown solver"
+	}
+	cmd.Stdin = strings.NewReader(sb.String())
+	done := make(chan struct{})
+	var out []byte
+	go func() {
+		out, _ = cmd.Output()
+		close(done)
+	}()
+	select {
+	case <-done:
+	case <-time.After(time.Duration(timeoutMs)*time.Millisecond + 15*time.Second):
+		if cmd.Process != nil {
+			cmd.Process.Kill()
+		}
+		<-done
+		return Unknown, nil, "one-shot solver killed after hard timeout"
+	}
+	text := string(out)
+	lines := strings.Split(text, "\n")
+	res := Unknown
+	msg := ""
+	rest := ""
+	for i, l := range lines {
+		l = strings.TrimSpace(l)
+		if l == "sat" {
+			res = Sat
+			rest = strings.Join(lines[i+1:], " ")
+			break
+		}
+		if l == "unsat" {
+			return Unsat, nil, ""
+		}
+		if l == "unknown" || l == "timeout" {
+			return Unknown, nil, "unknown"
+		}
+		if strings.Contains(l, "(error") {
+			return Unknown, nil, "solver error: " + l
+		}
+	}
+	if res != Sat {
+		return Unknown, nil, "no verdict: " + firstN(text, 200)
+	}
+	var vals []uint64
+	if len(want) > 0 {
+		if strings.Contains(rest, "(error") {
+			return Unknown, nil, "solver error in get-value"
+		}
+		rest = quotedRe.ReplaceAllString(rest, " ")
+		toks := valRe.FindAllString(rest, -1)
+		k := 0
+		for _, w := range want {
+			if w.IsConst() {
+				k += 2
+				vals = append(vals, w.Val)
+				continue
+			}
+			if k >= len(toks) {
+				return Unknown, nil, "get-value parse failure"
+			}
+			vals = append(vals, parseVal(toks[k]))
+			k++
+		}
+	}
+	return res, vals, msg
+}
